@@ -1,0 +1,24 @@
+//go:build verif
+
+package functions
+
+import "sync"
+
+// Accessors for the verification harness (/verif), property C06. Compiled only with -tags verif.
+
+// VerifResetBridgeCaches empties the two process-wide memo tables of the global
+// bridge (compiled programs, preprocessing results), so that a harness case
+// starts from the state of a fresh process and replays on its own.
+func VerifResetBridgeCaches() {
+	b := GetExprBridge()
+	b.programCache = sync.Map{}
+	b.preprocessCache = sync.Map{}
+}
+
+// VerifBridgeCacheSizes reports how many entries the two tables hold.
+func VerifBridgeCacheSizes() (programs, preprocessed int) {
+	b := GetExprBridge()
+	b.programCache.Range(func(_, _ any) bool { programs++; return true })
+	b.preprocessCache.Range(func(_, _ any) bool { preprocessed++; return true })
+	return
+}
